@@ -15,7 +15,7 @@ SELF = ("param", "self")
 JS = "netconan.utils.juniper_secrets"
 
 NONDET_PREFIXES = ("random.", "time.", "datetime.", "uuid.", "secrets.", "os.urandom", "os.getpid", "os.getppid", "os.times", "os.environ", "os.getenv", "os.getcwd", "os.getlogin",
-                   "socket.", "platform.", "getpass.", "locale.", "tempfile.", "threading.", "multiprocessing.", "builtins.id", "builtins.hash", "builtins.input", "builtins.object.__hash__")
+                   "socket.", "platform.", "getpass.", "locale.", "tempfile.", "threading.", "multiprocessing.", "concurrent.", "asyncio.", "queue.", "signal.", "subprocess.", "builtins.id", "builtins.hash", "builtins.input", "builtins.object.__hash__")
 PASSLIB_SALTED = ("passlib.hash.md5_crypt", "passlib.hash.sha512_crypt", "passlib.hash.sha256_crypt", "passlib.hash.sha1_crypt", "passlib.hash.bcrypt", "passlib.hash.des_crypt", "passlib.hash.cisco_type7")
 
 
@@ -742,8 +742,13 @@ def c14(ctx, rep):
     sub = Report("C18", quiet=True)
     c18(ctx, sub, with_k3=False)
     for o in sub.obligations:
-        if o["clause"] in ("C18.valid-alphabet", "C18.validated-before-tables", "C18.refusal", "C18.raises-valueerror-only", "C18.extra-total", "C18.alpha-num-inverse", "C18.gap-decode-guard", "C18.decode-prelude", "C18.decode-chain"):
+        if o["clause"] in ("C18.valid-alphabet", "C18.validated-before-tables", "C18.refusal", "C18.raises-valueerror-only", "C18.extra-total", "C18.alpha-num-inverse", "C18.gap-decode-guard", "C18.decode-prelude", "C18.decode-chain", "C18.decode-result"):
             rep.ob("C14.K3." + o["clause"].split(".", 1)[1], o["construct"], o["ok"], o["detail"], o["where"], o.get("witness"), key="C14.K3.%s|%s" % (o["clause"].split(".", 1)[1], o["construct"]))
+    # the AS map is read with every number the pattern can match (same list), parent directories exist before the output is opened
+    from .checks_pipe import import_clauses, c16 as _c16
+    from . import checks_rx as _rx
+    import_clauses(ctx, rep, "C14", "C11", _rx.c11, ("C11.map-built", "C11.map-writers", "C11.map-immutable", "C11.map-lookup"))
+    import_clauses(ctx, rep, "C14", "C16", _c16, ("C16.mkdirs-guard",), required=False)  # absent when the directory creation is written out in place (then C16's other clauses apply)
     # ---- 9 containment
     from .checks_pipe import _per_file_body
     f_files = p.find_function("anonymize_files")
@@ -1299,6 +1304,11 @@ def _codec_structure(ctx, rep, NUM_ALPHA, EXTRA, ENCODING, fixedc):
         pre_ok = len(rest_var) == 1 and len(prev_var) == 1 and wl.test == ("carried", rest_var[0], wl.uid)
         rep.ob("C18.decode-prelude", "juniper_decrypt", pre_ok, "before the group loop: MAGIC removed, prev = the salt character, EXTRA[salt] fillers skipped, loop runs while characters remain (%s)" % {n: show(v)[:60] for n, v in pres.items()}, W(f_dec, wl.node), key="C18.decode-prelude|juniper_decrypt")
         dec_name = [n for n, (pre, posts) in wl.carried.items() if pre in (("const", ""), ("list", ()))]
+        # what is returned is the accumulated text itself (joined if it was collected in a list): no re-coding afterwards
+        r_ = path.returned()
+        acc_out = [("loopout", n, wl.uid) for n in dec_name]
+        ret_ok = r_ in acc_out or (M.is_call(r_) and r_[1][0] == "attr" and r_[1][2] == "join" and r_[1][1] == ("const", "") and len(r_[2]) == 1 and r_[2][0] in acc_out)
+        rep.ob("C18.decode-result", "juniper_decrypt", ret_ok, "juniper_decrypt returns %s; expected the decoded characters as accumulated (any re-coding maps distinct plaintexts to one)" % show(r_)[:100], W(f_dec), key="C18.decode-result|juniper_decrypt")
         row_ok = False
         for bp in wl.body_paths:
             for e, ls in walk_effects(bp.effects):
